@@ -7,6 +7,10 @@ Model of /repo/util/graph (Mode M hand mirrors + one Mode V validator), core Lea
   tarjan.go     Tarjan         → `tarjan` (`strongConnect` gets fuel; `size < 2` → no callback)
   validator                    → `checkScc g comps`
 
+Fuel: `len+1` is proved sufficient for both recursive closures (Proofs/GraphPath.lean `dfs_spec`,
+Proofs/GraphTarjan.lean `sc_spec`: strictly more fuel than unvisited vertices), so the fuel-exhausted
+branches are dead code on well-formed graphs.
+
 A graph is `[][]int`: `g[v]` lists the successors of `v` (duplicates and self loops allowed).
 Vertices are `Nat`; the Go code indexes slices with the successors, so it panics on a successor
 `≥ len(g)`; `wfB` is the precondition under which it does not (the driver answers `panic` otherwise).
